@@ -707,7 +707,7 @@ func (t *TLG) analyze(fn *ssa.Function) {
 				st["V:"+phi.Name()] = a.eval(phi.Edges[idx], st)
 				a.vals[phi.Name()] = phi
 			}
-			if onlyMerges(succ) {
+			if onlyMerges(succ) || hasBoolPhi(succ) {
 				if a.edgeSt == nil {
 					a.edgeSt = map[*ssa.BasicBlock]map[int]tstate{}
 				}
@@ -1527,6 +1527,20 @@ func flipOp(op token.Token) token.Token {
 	return op
 }
 
+// hasBoolPhi: the block starts with a phi of boolean type (a && / || chain used as a value).
+func hasBoolPhi(b *ssa.BasicBlock) bool {
+	for _, in := range b.Instrs {
+		phi, ok := in.(*ssa.Phi)
+		if !ok {
+			return false
+		}
+		if bt, ok := phi.Type().Underlying().(*types.Basic); ok && bt.Kind() == types.Bool {
+			return true
+		}
+	}
+	return false
+}
+
 func (a *fnAn) refine(st tstate, cond ssa.Value, truth bool, b *ssa.BasicBlock) tstate {
 	switch c := cond.(type) {
 	case *ssa.UnOp:
@@ -1554,7 +1568,35 @@ func (a *fnAn) refine(st tstate, cond ssa.Value, truth bool, b *ssa.BasicBlock) 
 		// a && / || used as a value: the condition holds through one of the edges
 		// that have been feasible so far
 		if c.Block() != b {
-			return st
+			// the flag was computed in an earlier block (isArray := a || b || c; ...; if !isArray):
+			// nothing about the state here can be refined, but the branch is cut when no edge that
+			// has been feasible into the flag's block can have given it this value
+			pb := c.Block()
+			if !pb.Dominates(b) || a.feas[pb] == nil {
+				return st
+			}
+			for i, e := range c.Edges {
+				if !a.feas[pb][i] {
+					continue
+				}
+				switch k := e.(type) {
+				case *ssa.Const:
+					if k.Value != nil && k.Value.Kind() == constant.Bool && constant.BoolVal(k.Value) == truth {
+						return st
+					}
+				case *ssa.BinOp:
+					es, ok := a.edgeSt[pb][i]
+					if !ok {
+						return st
+					}
+					if a.refine(es.clone(), e, truth, pb) != nil {
+						return st
+					}
+				default:
+					return st
+				}
+			}
+			return nil
 		}
 		var res tstate
 		for i, e := range c.Edges {
@@ -1563,7 +1605,7 @@ func (a *fnAn) refine(st tstate, cond ssa.Value, truth bool, b *ssa.BasicBlock) 
 			}
 			var cand tstate
 			base := st
-			if es, ok := a.edgeSt[b][i]; ok {
+			if es, ok := a.edgeSt[b][i]; ok && onlyMerges(b) {
 				base = es // what held on this very edge (the block only merges)
 			}
 			if k, ok := e.(*ssa.Const); ok {
